@@ -36,6 +36,9 @@ CLAIMED = {
  "C12": ("exploration", "model-based stateful PBT against a simulated conformant target (independent CDB decoder) with a lock-step reference model; SG_IO vs iSCSI differential", "4 C12",
          "Generated histories of write/write-same/read/sync/capacity/inquiry facade calls over both transports against a simulated SBC target that decodes CDBs with the independent standards model and audits transport lengths; every read is compared with a reference model of the medium kept by the check; capacities up to 2^64-1 blocks.",
          "simulated target pbt/standins/target.py + stdspec; binding stand-ins; protection information not modelled; NUMBER OF LOGICAL BLOCKS=0 not generated"),
+ "C13": ("exploration", "Hypothesis arguments x optional-keyword subsets per facade method/table on a recording device that writes an independently built conformant response during execute; CDB judged by the standards model, result by the expected-value tree; documented keywords parsed from docstrings", "4 C13",
+         "Every facade method on every table that defines its command: exactly one execute, the executed object is the returned one, buffers are the very objects the device saw, opcode from the device's table, CDB decodes to the arguments with defaults for omitted optionals, and cmd.result equals values the device wrote during execute. All subsets of optional keywords and all docstring-documented keyword names are enumerated.",
+         "responses from pbt/respgen.py (C04's model); truncated responses (default buffer too small) are judged structurally only"),
  "C14": ("exploration", "exhaustive enumeration vs independent T10 table (differential oracle)", "4 C14",
          "Every table entry, service action, status code and all 256 opcode values are enumerated completely and compared with an independent transcription of T10's assignments; absence of a wrong value is established for the names the model knows, consistency only for the others.",
          "stdspec/opcodes.py (hand transcription of T10 op-num, SPC-4, SBC-3, SSC-4, SMC-3, MMC-6)"),
